@@ -5,6 +5,7 @@ import HappyProofs.C09.ConcInv
 import HappyProofs.C09.ExtraProps
 import HappyProofs.C09.SyncProps
 import HappyProofs.C09.PreemptSpec
+import HappyProofs.C09.PreemptCbProps
 import HappyProofs.C09.ThreadPoolSpec
 import HappyProofs.C09.WaitSilent
 import HappyProofs.C09.BulkheadSpec
